@@ -255,6 +255,8 @@ class Assembler:
             b = self.banks[bank]
             if k == "bankdef":
                 bank = it[1] + 1
+                if self.banks[bank].get("size") is not None and self.banks[bank]["size"] < 0:
+                    raise Reject("bank ends before it starts")
                 cur.setdefault(bank, 0)
                 self.layout[idx] = {"bank": bank, "pos": cur[bank], "size": 0}
                 continue
